@@ -570,3 +570,82 @@ def path_facts(cfg, node) -> Set[Tuple[str, bool]]:
     for t, o in guards_dominating(cfg, node):
         _atom_facts(t.ast, bool(o), out)
     return out
+
+
+# ------------------------------------------------------------------------------------ expression-node truthiness
+FNODE_CALLS = {"evaluate", "simplify", "substitute", "get_value", "remove_quantifiers", "FluentExp", "ObjectExp", "And", "Or", "Not", "Plus", "Minus", "Times", "Div", "Equals", "LE", "LT", "GE", "GT", "Int", "Real", "TRUE", "FALSE", "Bool", "Iff", "Implies", "Exists", "Forall", "ParameterExp", "VariableExp", "get_nnf_expression", "get_dnf_expression", "arg", "qsimplify"}
+
+
+def _truth_tested(fn: ast.AST) -> List[Tuple[ast.AST, ast.AST]]:
+    out = []
+    for n in walk_no_nested(fn):
+        if isinstance(n, (ast.If, ast.While, ast.IfExp, ast.Assert)):
+            out.append((n.test, n))
+        elif isinstance(n, ast.BoolOp):
+            out.extend((v, n) for v in (n.values[:-1] if isinstance(n.op, ast.Or) else n.values))
+        elif isinstance(n, ast.UnaryOp) and isinstance(n.op, ast.Not):
+            out.append((n.operand, n))
+    return out
+
+
+def expression_node_truthiness(rep: Report, rule: str, funcs: Iterable[FuncInfo]) -> int:
+    """An expression node (FNode) has no `__bool__`: it is always truthy, whatever it denotes (FALSE(), Int(0)).
+    `if v:`, `v or w`, `not v` on a local whose every binding is the result of an expression-producing call
+    (evaluate, simplify, substitute, get_value, a manager constructor) therefore never takes the other branch: the
+    author meant `.is_true()` / `.constant_value()` / `is not None`. Returns the number of truth-tested locals
+    examined."""
+    n = 0
+    for f in funcs:
+        tests = [(t, at) for t, at in _truth_tested(f.node) if isinstance(t, ast.Name)]
+        if not tests:
+            continue
+        params = {a.arg for a in f.node.args.args + f.node.args.kwonlyargs + f.node.args.posonlyargs}
+        if f.node.args.vararg:
+            params.add(f.node.args.vararg.arg)
+        if f.node.args.kwarg:
+            params.add(f.node.args.kwarg.arg)
+        defs: Dict[str, List[Optional[ast.AST]]] = {}
+        for a in walk_no_nested(f.node):
+            if isinstance(a, ast.Assign) and len(a.targets) == 1 and isinstance(a.targets[0], ast.Name):
+                defs.setdefault(a.targets[0].id, []).append(a.value)
+            else:
+                stores = []
+                if isinstance(a, ast.Assign):
+                    stores = [x for t in a.targets for x in ast.walk(t)]
+                elif isinstance(a, (ast.For, ast.comprehension)):
+                    stores = list(ast.walk(a.target))
+                elif isinstance(a, (ast.AugAssign, ast.AnnAssign)):
+                    stores = list(ast.walk(a.target))
+                elif isinstance(a, ast.NamedExpr):
+                    stores = [a.target]
+                elif isinstance(a, ast.withitem) and a.optional_vars is not None:
+                    stores = list(ast.walk(a.optional_vars))
+                elif isinstance(a, ast.ExceptHandler) and a.name:
+                    defs.setdefault(a.name, []).append(None)
+                for x in stores:
+                    if isinstance(x, ast.Name):
+                        defs.setdefault(x.id, []).append(None)
+        for t, at in tests:
+            if t.id in params:
+                continue
+            n += 1
+            ds = defs.get(t.id)
+            if ds and all(d is not None and isinstance(d, ast.Call) and call_name(d) in FNODE_CALLS for d in ds):
+                rep.bad(rule, f"`{t.id}` is tested for truth but is always an expression node", f.loc(at), construct=norm(at)[:90], detail=f"every binding of `{t.id}` is the result of {sorted({call_name(d) for d in ds})}: an FNode is truthy whatever it denotes, so the test is constant and the other branch is dead (e.g. `v or old` never falls back, `if not v` never fires) — `.is_true()` / `.constant_value()` / `is not None` was meant", function=f.qualname)
+    return n
+
+
+def self_check_expression_truthiness() -> bool:
+    src = "def f(se, e, s, old):\n    v = se.evaluate(e, s)\n    return v or old\n"
+    import types
+
+    fn = ast.parse(src).body[0]
+    class _R:
+        def __init__(self):
+            self.hits = 0
+        def bad(self, *a, **k):
+            self.hits += 1
+    f = types.SimpleNamespace(node=fn, qualname="fixture.f", loc=lambda n=None: "fixture:1")
+    r = _R()
+    expression_node_truthiness(r, "fixture", [f])
+    return r.hits == 1
